@@ -29,6 +29,9 @@ def gen(seed, index):
         return ["of_points", pts]
     G = g.GE(rng)
     e = G.env()
+    if rng.random() < 0.04:
+        # finding F12: a curve shape that is not 0 but tiny
+        rng.choice(e[1:])[2] = g.hexf(rng.choice([1e-13, 1e-15, -1e-15, 1e-17, 3e-16]))
     if e[0] == "T" and rng.random() < 0.12:
         # a trajectory may touch 0 bpm (a fermata written as a tempo): the value 0 is a number like any other here
         rng.choice(e[1:])[1] = g.hexf(0)
@@ -66,6 +69,11 @@ def model_case(case):
 
 
 def compare(case, mo, io):
+    m = compare1(case, mo, io)
+    return ("[F12] " + m) if m and case[0] == "envq" and tiny_shape(case[1]) else m
+
+
+def compare1(case, mo, io):
     case = strip(case)
     if case[0] == "of_points":
         return None if same(mo, io) else "constructed envelope differs"
@@ -79,6 +87,11 @@ def compare(case, mo, io):
 
 
 def oracle(case, io, mo):
+    m = oracle1(case, io, mo)
+    return ("[F12] " + m) if m and case[0] == "envq" and tiny_shape(case[1]) else m
+
+
+def oracle1(case, io, mo):
     case = strip(case)
     if case[0] == "of_points":
         pts = case[1]
@@ -137,14 +150,23 @@ def oracle(case, io, mo):
     return None
 
 
+
+
+def tiny_shape(e):
+    """a control point with a curve shape 0 < |c| < 1e-4 (finding F12: cancellation in exp(c) - 1)"""
+    return any(0 < abs(fl(p[2])) < 1e-4 for p in e[1:])
+
+
 def known(f, case, msg, io):
+    if f.get("id") == "F12":
+        return (msg or "").startswith("[F12]")
     if f.get("id") == "F2":
         return case[0] == "of_points" and int(case[1][0][0]) != 0 and "reports times" in (msg or "")
     return False
 
 
 def known_dis(f, case, msg, io, mo):
-    return False
+    return f.get("id") == "F12" and (msg or "").startswith("[F12]")
 
 
 def nontrivial(case, io):
